@@ -482,6 +482,7 @@ func (ss *Package) messageProperties(parent RootSchema, src protoreflect.Message
 				Description: commentDescription(field),
 				Schema:      mapField,
 				Parent:      parent,
+				Required:    ext.validate.Required != nil && *ext.validate.Required,
 			}
 			properties = append(properties, prop)
 			continue
